@@ -615,6 +615,7 @@ def run(ctx):
     _run_rules(ctx)
     from .. import boundaries
     boundaries.check(ctx, 'C06.RB', 'C06')
+    boundaries.check_layering(ctx, 'C06.RL')
     from . import C16
     C16.r7_discard_frees(ctx, 'C06.R7')  # window behind discarded DATA returns to the connection (else every later sender stalls)
     boundaries.check_amounts(ctx, 'C06.RA', 'C06')
